@@ -134,6 +134,7 @@ func runC01(c *Ctx) {
 	runInval(c, "C01", "data")
 	runC01Slots(c)
 	runC01AttrFresh(c, "C01")
+	runReadSize(c, "C01")
 }
 
 func runC02(c *Ctx) {
